@@ -22,28 +22,82 @@ def checkpoints(n, dense_limit=64):
 TRAIT_ADD = ('Mean', 'Variance', 'MeanWithError', 'Skewness', 'Kurtosis')
 
 
-def prefix_case(cid, typ, xs, dense_limit=64, meta=None, how='add', weights=None, final_only=False, via_trait=False):
+def prefix_case(cid, typ, xs, dense_limit=64, meta=None, how='add', weights=None, final_only=False, via_trait=False,
+                noise=None, serde_ok=True):
     """N 0; A ...; O 0 at every checkpoint.  Returns (case, [(op index, prefix length)]).
-    weights: for 2-ary estimators, the second component of each pair."""
+    weights: for 2-ary estimators, the second component of each pair.
+    noise: a random.Random - between the adds, operations that must be invisible are injected (a serde round trip, a clone
+    moved back with clone_from, a merge of an empty estimator, an extend with nothing): whatever an estimator caches
+    besides its serialised / merged state shows up as a wrong statistic a few adds later."""
     c = Case(cid, typ, meta=meta or {})
     if via_trait and typ in TRAIT_ADD:
         c.meta['add'] = 'through the Estimate trait'
     c.op('N', 0)
+    if noise is not None and noise.random() < 0.4:
+        # invisible operations on the still empty estimator: empty merged with empty (both ways), a round trip of nothing
+        for _ in range(noise.randint(1, 2)):
+            kind = noise.choice(['merge_empty', 'merge_into_empty', 'serde', 'default'])
+            if kind == 'merge_empty':
+                c.op('N', 30)
+                c.op('M', 0, 30)
+            elif kind == 'merge_into_empty':
+                c.op('N', 30)
+                c.op('M', 30, 0)
+                c.op('K', 0, 30)
+            elif kind == 'serde' and serde_ok and typ not in ('Min', 'Max'):
+                c.op('S', 0, noise.choice(['j', 'v']))
+            elif kind == 'default' and typ != 'Quantile':
+                c.op('D', 0)
+        c.meta['noise'] = c.meta.get('noise', 0) + 1
     pts = [len(xs)] if final_only else checkpoints(len(xs), dense_limit)
     marks = []
     prev = 0
     for k in pts:
         if weights is None:
             # via_trait: Estimate::add reached through the trait (op AT) instead of method syntax on the concrete type
-            c.op('AT' if (via_trait and typ in TRAIT_ADD) else 'A', 0, xs[prev:k])
+            code = 'AT' if (via_trait and typ in TRAIT_ADD) else 'A'
+            if noise is not None and prev > 0 and typ not in ('Max', 'Quantile') and noise.random() < 0.2:
+                code = noise.choice(['E', 'ER'])        # the same observations through extend (C20: identical to the add loop)
+            chunk = xs[prev:k]
         else:
-            inter = []
+            code = 'A'
+            chunk = []
             for x, w in zip(xs[prev:k], weights[prev:k]):
-                inter.append(x)
-                inter.append(w)
-            c.op('A', 0, inter)
+                chunk.append(x)
+                chunk.append(w)
+        if noise is not None and prev > 0 and typ != 'Quantile' and noise.random() < 0.15:
+            # the chunk is absorbed by a separate estimator which is then merged in (either operand order): C02 / C08 / C09
+            # promise the same statistics within the envelope (not bit for bit: see meta['merged'])
+            c.op('N', 28)
+            c.op('A', 28, chunk)
+            if noise.random() < 0.5:
+                c.op('M', 0, 28)
+            else:
+                c.op('M', 28, 0)
+                c.op('K', 0, 28)
+            c.meta['merged'] = True
+        else:
+            c.op(code, 0, chunk)
         marks.append((c.op('O', 0), k))
         prev = k
+        if noise is not None and k < len(xs) and noise.random() < 0.5:
+            kind = noise.choice(['serde', 'serde', 'clone', 'merge_empty', 'merge_into_empty', 'extend_nothing'])
+            if kind == 'serde' and serde_ok:
+                c.op('S', 0, noise.choice(['j', 'v']))
+            elif kind == 'clone':
+                c.op('K', 29, 0)
+                c.op('N', 0)
+                c.op('KF', 0, 29)
+            elif kind == 'merge_empty':
+                c.op('N', 30)
+                c.op('M', 0, 30)
+            elif kind == 'merge_into_empty':
+                c.op('N', 30)
+                c.op('M', 30, 0)
+                c.op('KF', 0, 30)
+            elif kind == 'extend_nothing' and typ not in ('Max', 'Quantile'):
+                c.op('E', 0, [])
+            c.meta['noise'] = c.meta.get('noise', 0) + 1
     return c, marks
 
 
@@ -86,7 +140,7 @@ def judge_prefix_case(prop, typ, case, marks, recs, oracle, res, variant='releas
             continue
         mo = oracle.at(k)
         if mc.judge(prop, typ, oracle.xs[:k], r.kv, res, case, variant, only=only, mo=mo,
-                    context='after %d adds' % k, add_only=True):
+                    context='after %d adds' % k, add_only=not case.meta.get('merged')):
             nontriv += 1
             res.count('nontrivial_states')
             res.count('n_decade_%s' % decade(k))
